@@ -20,6 +20,9 @@ from sfv.rt.wfgen import apply_fn, deep_map, pred_holds
 # is part of the schedule — C05 quantifies over "every order in which jobs complete"
 JOB_RNG = random.Random(0)
 JOB_JITTER = 0.004
+# "random": PRNG durations; "reverse": a job takes the longer the smaller the last component of its tag, so that the jobs
+# of a scatter complete in (roughly) REVERSE tag order — a controlled, reproducible reordering of the step's output port
+JOB_MODE = "random"
 
 
 class GenCommand(Command):
@@ -37,7 +40,11 @@ class GenCommand(Command):
         return {"k": self.k, "nin": self.nin, "fail_tag": self.fail_tag}
 
     async def execute(self, job):
-        await asyncio.sleep(JOB_RNG.random() * JOB_JITTER)
+        if JOB_MODE == "reverse" and JOB_JITTER > 0:
+            idx = int(get_tag(job.inputs.values()).split(".")[-1])
+            await asyncio.sleep(max(0, 14 - idx) * 0.012)
+        else:
+            await asyncio.sleep(JOB_RNG.random() * JOB_JITTER)
         if self.fail_tag is not None and get_tag(job.inputs.values()) == self.fail_tag:
             return CommandOutput("injected job failure", Status.FAILED)
         vals = [job.inputs[f"i{j}"].value for j in range(self.nin)]
